@@ -76,6 +76,7 @@ type Sim struct {
 	Scratch    *dbutil.Scratch
 	SpaceId    string
 	AclRecords []*consensusproto.RawRecordWithId
+	ExtraAcl   []*consensusproto.RawRecordWithId
 	Settings   *treechangeproto.RawTreeChangeWithId
 	Root       *treechangeproto.RawTreeChangeWithId
 	Replicas   []*Replica
@@ -128,12 +129,16 @@ type Options struct {
 	Encrypted bool   // tree content encrypted under the ACL read key
 	Holders   int    // the first Holders replicas start with the tree (root only); the rest join late
 	Perms     []int  // permission of accounts 1..N-1 (default Writer)
+	// ExtraAclOps are applied to the ACL world after the set-up; the records they produce
+	// are NOT fed to the replicas but kept in Sim.ExtraAcl (inputs for later ACL additions).
+	ExtraAclOps []aclgen.Op
 }
 
 // New builds the ACL (inside a synctest bubble, fixed clock), the tree root, and the replicas.
 func New(t *testing.T, o Options) (s *Sim, err error) {
 	s = &Sim{T: t, SpaceId: "spaceid.verif", Counters: map[string]int{}, Produced: map[string]bool{}, advertised: map[int][][]string{}, Encrypted: o.Encrypted, clock: 1_700_000_000}
 	var w *aclgen.World
+	base := 0
 	err = aclgen.Bubble(t, func() error {
 		var err error
 		w, err = aclgen.NewWorld(o.N, o.Seed, false)
@@ -156,32 +161,45 @@ func New(t *testing.T, o Options) (s *Sim, err error) {
 				return fmt.Errorf("treesim: could not add account %d: %s", i, st.BuildErr)
 			}
 		}
+		base = len(w.Records)
+		for _, op := range o.ExtraAclOps {
+			if _, err := w.Apply(op); err != nil {
+				return err
+			}
+		}
 		return nil
 	})
 	if err != nil {
 		return nil, err
 	}
-	s.AclRecords = w.Records
+	s.AclRecords = w.Records[:base]
+	s.ExtraAcl = w.Records[base:]
 	s.Scratch, err = dbutil.New("treesim-")
 	if err != nil {
 		return nil, err
 	}
+	sim := s
 	defer func() {
 		if err != nil {
-			s.Close()
+			sim.Close()
 		}
 	}()
+	// the roots cite the head of the ACL the replicas start with (not the extra records)
+	baseAcl, err := aclgen.NewList(w.Keys[0], s.AclRecords, recordverifier.NewValidateFull())
+	if err != nil {
+		return nil, err
+	}
 	seedBytes := []byte(fmt.Sprintf("seed-%d", o.Seed))
 	s.Settings, err = objecttree.CreateObjectTreeRoot(objecttree.ObjectTreeCreatePayload{
 		PrivKey: w.Keys[0].SignKey, ChangeType: "settings", SpaceId: s.SpaceId, Seed: seedBytes, Timestamp: s.clock,
-	}, w.Lists[0])
+	}, baseAcl)
 	if err != nil {
 		return nil, err
 	}
 	s.Root, err = objecttree.CreateObjectTreeRoot(objecttree.ObjectTreeCreatePayload{
 		PrivKey: w.Keys[0].SignKey, ChangeType: "verif.object", ChangePayload: []byte("payload"), SpaceId: s.SpaceId,
 		IsEncrypted: o.Encrypted, Seed: append(seedBytes, 'o'), Timestamp: s.clock,
-	}, w.Lists[0])
+	}, baseAcl)
 	if err != nil {
 		return nil, err
 	}
